@@ -9,6 +9,9 @@ META_EXCLUDE.add('node_sock')
 META_EXCLUDE.add('node_protocol')
 META_EXCLUDE.add('node_without_result')
 META_EXCLUDE.add('success_channels')
+META_EXCLUDE.add('complete_channels')
+META_EXCLUDE.add('cause')  # completion tracking of the dispatcher
+META_EXCLUDE.add('effects')
 
 
 def _dumps(data):
